@@ -142,6 +142,10 @@ Definition monitor (cmp : string -> string -> bool) (cf : config) (st : list cli
 Inductive c10case :=
 | KTable (t : list th)
 | K (cf : config) (st : list client) (cmp : list (string * string)) (ep : endpoint) (rq : request)
+    (houts : list (nat * hres)) (o : obs) (changed : bool) (final : string)
+(* the request also carries client credentials in its URI ([u]): no authentication method permits that transport
+   (RFC 6749 2.3.1), so the property is judged on the body and header alone *)
+| KU (cf : config) (st : list client) (cmp : list (string * string)) (ep : endpoint) (rq u : request)
     (houts : list (nat * hres)) (o : obs) (changed : bool) (final : string).
 
 Definition no_as : assertion := As false None "" None false false false false.
@@ -166,4 +170,15 @@ Definition check (c : c10case) : verdict :=
       let cmp := cmp_of tbl in
       V (obs_diff (run_endpoint cmp cf st ep rq houts) o)
         (monitor cmp cf st ep rq o changed final)
+  | KU cf st tbl ep rq u houts o changed final =>
+      let cmp := cmp_of tbl in
+      V (obs_diff (run_endpoint_uri cmp cf st ep rq u houts) o)
+        (match monitor cmp cf st ep rq o changed final with
+         | Some t =>
+             (* the verdict would be in order had the URI's credentials arrived in the body: the endpoint read them from the URI *)
+             if is_par ep && match monitor cmp cf st ep (merge_uri rq u) o changed final with None => true | Some _ => false end
+             then Some "par_takes_client_credentials_from_the_request_uri"
+             else Some t
+         | None => None
+         end)
   end.
